@@ -89,6 +89,20 @@ Fixpoint seek_ok (f : field) (off : Z) : bool :=
 Definition b_lincom (o : bop) : bool :=
   match o with BLincom _ _ _ _ => true | _ => false end.
 
+(* ---- which code is modelled --------------------------------------------------
+   The model follows the source in /repo.  Repairs proposed by this check change
+   the read path in a few places; each is a flag here, set from the source by
+   translate/tr_readpath.py (coq/Gen/ReadVariant.v), so that the same development
+   describes the tree before and after a repair is applied.  The theorems are
+   proved for every variant.
+   v_align  : proposed_fixes/C01-2 (second/third input aligned with the remainder
+              (s*spf2) mod spf1 passed to the kernels, floor instead of truncation)
+   v_rawpad : proposed_fixes/C01-3 (padding before the frame offset by return type)
+   v_alloc0 : proposed_fixes/C01-4 (_GD_Alloc accepts a zero-length request)
+   v_clamp  : proposed_fixes/C16-1 (gd_eof/gd_bof clamped only in the public functions)
+   v_bofceil: proposed_fixes/C16-2 (sub-frame part of a beginning-of-field rounded up) *)
+Record variant := { v_align : bool; v_rawpad : bool; v_alloc0 : bool; v_clamp : bool; v_bofceil : bool }.
+
 (* ---- value algebra ---------------------------------------------------- *)
 Record Alg := {
   V : Type;
@@ -132,7 +146,7 @@ Definition ecount (a : ext) (s n : Z) : Z :=
   match a with Fin x => Z.min n (Z.max 0 (x - s)) | Inf => n end.
 
 Section Spec.
-Context (A : Alg) (db : database).
+Context (A : Alg) (db : database) (v : variant).
 
 Fixpoint spf (f : field) : Z :=
   match f with
@@ -218,7 +232,6 @@ Fixpoint wfb (f : field) : bool :=
 Inductive tag :=
 | TRawPad        (* window reaches the frame-offset padding of a RAW whose native-type padding differs from the return-type padding *)
 | TUnaligned     (* two/three-input field: spf1 does not divide s*spf2 *)
-| TEmpty2        (* MULTIPLY/DIVIDE/WINDOW/MPLEX: first input has data at s but the second has none *)
 | TMplexRate     (* MPLEX with different rates *)
 | TMplexNeg      (* MPLEX reached at a negative sample (implementation dependent) *)
 | TAllocZero     (* a zero-length buffer is requested from _GD_Alloc: LINTERP/INDIR read with n = 0, third LINCOM input after the second ended the field *)
@@ -227,37 +240,43 @@ Inductive tag :=
 Definition divides (a b : Z) : bool := b mod a =? 0.
 Definition tag_if (b : bool) (t : tag) : list tag := if b then [t] else [].
 
-(* the clauses violated by reading n samples of f from s as rt; [] = covered *)
+(* the clauses violated by reading n samples of f from s as rt; [] = covered.
+   rem s s1 s2 = (s*s2) mod s1, the alignment remainder (0 wherever the unrepaired
+   code is covered) *)
+Definition arem (s s1 s2 : Z) : Z := (s * s2) mod s1.
+(* count left after a second read of c2 samples, c at hand *)
+Definition alim (c2 c s1 s2 r : Z) : Z := let l := (c2 * s1 - r) / s2 in if l <? c then l else c.
+
 Fixpoint uncovered (rt : ctype) (f : field) (s n : Z) : list tag :=
   match f with
   | Raw id =>
       let r := db id in
       if n <=? 0 then [] else
-      tag_if ((s <? raw_start r) && negb (pad_ok A rt (r_ty r))) TRawPad
+      tag_if (negb (v_rawpad v) && (s <? raw_start r) && negb (pad_ok A rt (r_ty r))) TRawPad
   | Index => []
   | Phase g sh => uncovered rt g (s + sh) n
-  | Un o g => tag_if (u_alloc o && (n =? 0)) TAllocZero ++ uncovered (u_in o rt) g s n
+  | Un o g => tag_if (negb (v_alloc0 v) && u_alloc o && (n =? 0)) TAllocZero ++ uncovered (u_in o rt) g s n
   | Bin o g h =>
       let s1 := spf g in let s2 := spf h in
       let c1 := spec_count g s n in
       uncovered rt g s n ++
       (if c1 <=? 0 then [] else
-       tag_if (negb (divides s1 (s * s2))) TUnaligned ++
-       (if b_lincom o then [] else tag_if (negb (eltb (s * s2 / s1) (eof h))) TEmpty2) ++
-       uncovered (b_in2 o) h (s * s2 / s1) (cdiv (c1 * s2) s1))
+       tag_if (negb (v_align v) && negb (divides s1 (s * s2))) TUnaligned ++
+       uncovered (b_in2 o) h (s * s2 / s1) (cdiv (arem s s1 s2 + c1 * s2) s1))
   | Tri o g h l =>
       let s1 := spf g in let s2 := spf h in let s3 := spf l in
       let c1 := spec_count g s n in
       uncovered rt g s n ++
       (if c1 <=? 0 then [] else
-       tag_if (negb (divides s1 (s * s2))) TUnaligned ++
-       uncovered F64 h (s * s2 / s1) (cdiv (c1 * s2) s1) ++
-       let c2 := spec_count h (s * s2 / s1) (cdiv (c1 * s2) s1) in
+       tag_if (negb (v_align v) && negb (divides s1 (s * s2))) TUnaligned ++
+       uncovered F64 h (s * s2 / s1) (cdiv (arem s s1 s2 + c1 * s2) s1) ++
+       let c2 := spec_count h (s * s2 / s1) (cdiv (arem s s1 s2 + c1 * s2) s1) in
        if c2 <=? 0 then [] else
-       let n1 := if c2 * s1 <? c1 * s2 then c2 * s1 / s2 else c1 in
-       tag_if (negb (divides s1 (s * s3))) TUnaligned ++
-       tag_if (cdiv (n1 * s3) s1 =? 0) TAllocZero ++
-       uncovered F64 l (s * s3 / s1) (cdiv (n1 * s3) s1))
+       let n1 := alim c2 c1 s1 s2 (arem s s1 s2) in
+       tag_if (negb (v_align v || v_alloc0 v) && (n1 =? 0)) TAllocZero ++
+       (if n1 <=? 0 then [] else
+        tag_if (negb (v_align v) && negb (divides s1 (s * s3))) TUnaligned ++
+        uncovered F64 l (s * s3 / s1) (cdiv (arem s s1 s3 + n1 * s3) s1)))
   | Mplex g h cnt _ =>
       let s1 := spf g in let s2 := spf h in
       let c1 := spec_count g s n in
@@ -265,10 +284,9 @@ Fixpoint uncovered (rt : ctype) (f : field) (s n : Z) : list tag :=
       (if c1 <=? 0 then [] else
        tag_if (negb (s1 =? s2)) TMplexRate ++
        tag_if (s <? 0) TMplexNeg ++
-       tag_if (negb (eltb (s * s2 / s1) (eof h))) TEmpty2 ++
        tag_if (negb (seek_ok g (s + c1) &&
-                     seek_ok h (s * s2 / s1 + spec_count h (s * s2 / s1) (cdiv (c1 * s2) s1)))) TMplexSeek ++
-       uncovered I32 h (s * s2 / s1) (cdiv (c1 * s2) s1) ++
+                     seek_ok h (s * s2 / s1 + spec_count h (s * s2 / s1) (cdiv (arem s s1 s2 + c1 * s2) s1)))) TMplexSeek ++
+       uncovered I32 h (s * s2 / s1) (cdiv (arem s s1 s2 + c1 * s2) s1) ++
        (* the look-back reads the index over [0,s) and one sample of the input *)
        (if 0 <? s * s2 / s1 then
           uncovered I32 h 0 (s * s2 / s1) ++
